@@ -32,13 +32,33 @@ longer than the period, dispose before the first run / during a wait / before an
 after the loop's test / during a run from inside and from another thread / twice,
 raising invocations); the event trace is compared with the model inside Coq.  Oracle:
 ntpdrv.oracle, the statement on the same logs.
-NOT covered: EventLoopScheduler / TimeoutScheduler / ThreadPoolScheduler / mainloop
-schedulers; for NewThreadScheduler real thread scheduling delays and the wake-up
-latency of Event.wait (the controlled world has none) -- the claim is partial."""
+The same driver, model and oracle run ThreadPoolScheduler.schedule_periodic (the inherited loop
+started through ThreadPoolThread / executor.submit).
+(e) EventLoopScheduler.schedule_periodic (own override), TimeoutScheduler (inherited generic
+closure on threading.Timer), NewThreadScheduler and ThreadPoolScheduler under K3 with time
+(harness/k3_time.py, eldrv.py, rtdrv.py): the subscribing thread, a stopping thread that
+waits for the controlled clock, a clock thread and the loop / timer / worker threads under all
+schedules up to a preemption bound + seeded random + fine-grained ones; direct, and through
+reactivex.interval(p, scheduler=s).subscribe(f) / reactivex.interval(p).subscribe(f,
+scheduler=s).  ORACLE ONLY (eldrv.periodic_oracle): tick k gets f^k(st0) (interval: k), ticks
+never overlap, first tick >= call + period, consecutive ticks >= a period apart, no tick once a
+dispose() returned before the previous tick ended or before the tick could be due, at most one
+after any dispose(), none after a raise, keeps going until stopped.
+(c') half of the interval / timer(d, p) cases of (c) hand the scheduler to the FACTORY
+(reactivex.interval(p, scheduler=s)) and subscribe without one.
+NOT covered: mainloop / asyncio schedulers; real thread scheduling delays and the wake-up
+latency of Event.wait / Timer in exact-time claims (the K3 family only demands lower bounds)
+-- the claim is partial."""
+import hashlib
 import json
+import time
 
+import eldrv as E
+import k3
+import k3_time as kt
 import lib
 import ntpdrv
+import rtdrv as R
 import vt
 
 IMPORTS = "Base.Prelude Core.VTime Core.CatchSched Core.Periodic"
@@ -268,6 +288,8 @@ def run(chk):
         gal.append((f"({vt.KIND[world]}, 0, 3000%nat, {vt.g_history(h)})", vt.g_obs(obs)))
 
     # ---- (c) interval / timer observables, with observers that take virtual time ---
+    n_obs = 0
+    hist["observable_scheduler_given_to"] = {}
     for world in vt.WORLDS:
         for (d, p, t_rel, disp) in [(3, 3, 16, None), (1, 1, 5, None), (2, 2, 9, 5), (5, 5, 4, None),
                                     (1, 3, 11, None), (4, 2, 13, None), (0, 2, 7, None), (2, 5, 30, 14)]:
@@ -282,10 +304,13 @@ def run(chk):
                         sleeps = [250000, P // 2, 0, 3 * P // 4, P]
                     else:                 # whole and fractional seconds, one overrun
                         sleeps = [P // 4, 2500000 if P >= 3 * U else P // 2, P + P // 2, 0, 1000000 if P >= U else 0]
+                    via = "factory" if n_obs % 2 else "subscribe"
+                    n_obs += 1
                     emitted, obs, h = run_observable(world, c0, d * U, P, t_rel * U,
-                                                     None if disp is None else disp * U, sleeps)
+                                                     None if disp is None else disp * U, sleeps, via)
                     chk.cov["evaluations"] += 1
                     hist["interval" if d == p else "timer_d_p"] += 1
+                    hist["observable_scheduler_given_to"][via] = hist["observable_scheduler_given_to"].get(via, 0) + 1
                     if d == p:
                         tab = [[[i, ["next", [], i + 1] + ([sleeps[i % len(sleeps)]] if sleeps else [])]
                                 for i in range(80)], ["raise", [], 99]]
@@ -298,8 +323,9 @@ def run(chk):
                             exp.append((k, c0 + d * U + k * P))
                             k += 1
                     if emitted != exp:
-                        fail(100, "interval-timer-emissions-differ",
-                             {"world": world, "c0": c0,
+                        fail(100, "interval-timer-emissions-differ|scheduler-given-to-" + via,
+                             {"world": world, "c0": c0, "driver": "observable",
+                              "args": [world, c0, d * U, P, t_rel * U, None if disp is None else disp * U, sleeps, via],
                               "observable": f"timer({d} s, {p} s)" if d != p else f"interval({p} s)",
                               "observer_sleeps_us": sleeps, "dispose_at_rel": disp,
                               "emitted (value, clock)": emitted, "expected": exp,
@@ -311,15 +337,21 @@ def run(chk):
     # ---- (d) NewThreadScheduler.schedule_periodic: the loop on its dedicated thread ----
     nt_cases = ntpdrv.exhaustive_cases(tier)
     nt_cases += [ntpdrv.random_case(rng, tier) for _ in range(1500 if tier == "quick" else 40000)]
+    # the same loop inherited by ThreadPoolScheduler (thread factory = ThreadPoolThread over the executor): every
+    # third exhaustive record and a third of the seeded scripts
+    for i, cs in enumerate(nt_cases):
+        if i % 3 == 1:
+            cs["sched"] = "threadpool"
     nt_gal, nt_fail = [], {}
     nth = {"cases": 0, "family": {}, "period": {}, "invocations": 0, "overrunning_invocations": 0,
            "invocations_as_long_as_period": 0, "dispose_calls": {}, "outcome": {}, "raised": 0,
-           "no_wait_iterations": 0, "max_invocations": 0}
+           "no_wait_iterations": 0, "max_invocations": 0, "scheduler": {}}
     with ntpdrv.rebound():
         for case in nt_cases:
             r = ntpdrv.run_case(case)
             chk.cov["evaluations"] += 1
             nth["cases"] += 1
+            nth["scheduler"][case.get("sched", "newthread")] = nth["scheduler"].get(case.get("sched", "newthread"), 0) + 1
             fam = case.get("family", "?")
             nth["family"][fam] = nth["family"].get(fam, 0) + 1
             pk = str(case["period"]) if case["period"] in ntpdrv.PERIODS + [-1000] else "other"
@@ -366,6 +398,9 @@ def run(chk):
             detail["model_says"] = lib.coq_show("C35", ntpdrv.IMPORTS,
                                                 f"{ntpdrv.MODEL_FN} {nt_gal[firsts[0]][0]}")[:3000]
         chk.tie_broken("correspondence: Core/NewThreadPeriodic.v vs real NewThreadScheduler.schedule_periodic", detail)
+
+    # ---- (e) schedule_periodic on the real-time schedulers under K3 with time (oracle only) ----
+    rt_periodic_family(chk, tier, rng, hist, nontrivial)
 
     failures.sort(key=lambda f: f[0])
     seen = set()
@@ -422,10 +457,194 @@ def run(chk):
                      "period > 0 for the closed form (period 0 or negative keeps advance_to busy forever by design)"])
 
 
-def run_observable(world, c0, d, p, t_rel, disp, sleeps=None):
+# ---------------------------------------------------------------------------------------------------------
+# (e) EventLoopScheduler / TimeoutScheduler / NewThreadScheduler / ThreadPoolScheduler . schedule_periodic under
+#     the time-aware thread controller; cases in the format of harness/eldrv.py
+# ---------------------------------------------------------------------------------------------------------
+
+RT_FIXED = [
+    # alone; stopped by its last tick
+    {"t0": 0, "progs": [[["periodic", 1000, 1]]], "ticks": [], "pspec": {"1": {"fn": "count", "st0": 0, "max": 3}}},
+    # float period, a None in the state chain, stopped from another thread between two ticks, a clock thread
+    {"t0": 0, "progs": [[["periodic", 1000, 1]], [["sleep", 1500], ["cancel", 1]]], "ticks": [500],
+     "pspec": {"1": {"fn": "jump", "st0": 0, "max": 4, "as": "float"}}},
+    # stopped at the very instant a tick is due
+    {"t0": 5000, "progs": [[["periodic", 1000, 1]], [["sleep", 2000], ["cancel", 1]]], "ticks": [1000],
+     "pspec": {"1": {"fn": "cycle3", "st0": 0, "max": 5}}},
+    # ticks that take time: less than, exactly, more than the period
+    {"t0": 0, "progs": [[["periodic", 1000, 1]]], "ticks": [],
+     "pspec": {"1": {"fn": "count", "st0": 0, "max": 4, "durs": [500, 1000, 2500, 0]}}},
+    # an overrunning tick disposed from outside while it runs
+    {"t0": 0, "progs": [[["periodic", 1000, 1]], [["sleep", 1800], ["cancel", 1]]], "ticks": [],
+     "pspec": {"1": {"fn": "count", "st0": 0, "max": 6, "durs": [0, 2000]}}},
+    # a tick raises
+    {"t0": 0, "progs": [[["periodic", 1000, 1]]], "ticks": [1000],
+     "pspec": {"1": {"fn": "count", "st0": 0, "max": 5, "raise_at": 1}}},
+    {"t0": 0, "progs": [[["periodic", 2000, 1]]], "ticks": [],
+     "pspec": {"1": {"fn": "none", "st0": 5, "max": 5, "raise_at": 0, "as": "float"}}},
+    # next to one-shot actions, a tick that schedules
+    {"t0": 0, "progs": [[["periodic", 1000, 1], ["rel", 1000, 5]], [["now", 6], ["abs", 2000, 7]]], "ticks": [1000],
+     "pspec": {"1": {"fn": "same", "st0": 4, "max": 3, "bodies": {"0": [["rel", 500, 9]]}}}},
+    # two subscriptions
+    {"t0": 0, "progs": [[["periodic", 1000, 1]], [["periodic", 1500, 2]]], "ticks": [],
+     "pspec": {"1": {"fn": "count", "st0": 0, "max": 3}, "2": {"fn": "cycle3", "st0": 0, "max": 2}}},
+    # reactivex.interval on the scheduler: through the factory argument / through subscribe(scheduler=)
+    {"t0": 0, "progs": [[["periodic", 1000, 1]]], "ticks": [], "pspec": {"1": {"via": "interval_factory", "max": 3}}},
+    {"t0": 0, "progs": [[["periodic", 2000, 1]], [["sleep", 4500], ["cancel", 1]]], "ticks": [1000],
+     "pspec": {"1": {"via": "interval_subscribe", "max": 6, "as": "float"}}},
+    {"t0": 0, "progs": [[["periodic", 15625, 1]]], "ticks": [],
+     "pspec": {"1": {"via": "interval_factory", "max": 3, "as": "float", "durs": [0, 20000]}}},
+    # ---- EventLoopScheduler only: exit_if_empty; dispose() of the scheduler; schedule_periodic afterwards raises
+    {"kinds": ["eventloop"], "eie": True, "t0": 0, "progs": [[["periodic", 1000, 1]], [["sleep", 2500], ["cancel", 1]]],
+     "ticks": [], "pspec": {"1": {"fn": "count", "st0": 0, "max": 9}}},
+    {"kinds": ["eventloop"], "t0": 0,
+     "progs": [[["periodic", 1000, 1], ["sleep", 2500], ["dispose"], ["periodic", 1000, 2]]], "ticks": [],
+     "pspec": {"1": {"fn": "count", "st0": 0, "max": 9}, "2": {"fn": "count", "st0": 0, "max": 2}}},
+    {"kinds": ["eventloop"], "t0": 0, "progs": [[["periodic", 1000, 1]], [["sleep", 1000], ["dispose"], ["periodic", 500, 2]]],
+     "ticks": [1000], "pspec": {"1": {"fn": "count", "st0": 0, "max": 3}, "2": {"fn": "same", "st0": 4, "max": 2}}},
+    # subscribed from inside an action running on the loop thread
+    {"kinds": ["eventloop"], "eie": True, "t0": 0, "progs": [[["now", 1], ["rel", 2500, 2]]],
+     "bodies": {"1": [["periodic", 1000, 3]], "2": [["cancel", 3]]}, "ticks": [],
+     "pspec": {"3": {"fn": "count", "st0": 0, "max": 6}}},
+]
+
+
+def rt_gen_case(rng):
+    labels = iter(range(1, 40))
+    t0 = rng.choice([0, 5000])
+    progs, pspec = [], {}
+    for _ in range(rng.choice([1, 1, 1, 2])):
+        a = next(labels)
+        p = rng.choice([500, 1000, 1000, 2000, 15625, 250000])
+        via = rng.choice(["direct", "direct", "direct", "interval_factory", "interval_subscribe"])
+        fn = rng.choice(list(ntpdrv.FNS)) if via == "direct" else "count"
+        spec = {"fn": fn, "st0": ntpdrv.ST0[fn] if via == "direct" else 0, "max": rng.choice([2, 3, 3, 4]),
+                "as": rng.choice(["timedelta", "float"]), "via": via}
+        if rng.random() < 0.4:
+            spec["durs"] = [rng.choice([0, p // 2, p, p + p // 2, 2 * p + 7]) for _ in range(3)]
+        if via == "direct" and rng.random() < 0.2:
+            spec["raise_at"] = rng.randrange(spec["max"])
+        if rng.random() < 0.2:
+            spec["bodies"] = {str(rng.randrange(spec["max"])): [["rel", rng.choice([0, p // 2, p]), next(labels)]]}
+        pspec[str(a)] = spec
+        progs.append([["periodic", p, a]])
+        x = rng.random()
+        if x < 0.5:
+            progs.append([["sleep", rng.choice([p // 2, p, p + p // 2, 2 * p, 2 * p + 1, 3 * p])], ["cancel", a]])
+        elif x < 0.6:
+            progs[-1].append(["cancel", a])
+    if rng.random() < 0.3:
+        progs.append([rng.choice([["now", next(labels)], ["rel", 1000, next(labels)]])])
+    ticks = [rng.choice([500, 1000, 1000, 2500]) for _ in range(rng.choice([0, 0, 1, 2]))]
+    case = {"t0": t0, "progs": progs, "ticks": ticks, "pspec": pspec}
+    if rng.random() < 0.2:
+        case["kinds"] = ["eventloop"]
+        case["eie"] = rng.random() < 0.5
+        progs.append([["sleep", rng.choice([500, 1500, 2500])], ["dispose"],
+                      ["periodic", 1000, 38]])
+        pspec["38"] = {"fn": "count", "st0": 0, "max": 2}
+    return case
+
+
+def rt_oracle(case, r):
+    kind = case["kind"]
+    bad = E.periodic_oracle(case, r, kind, pid="C35", full=True)
+    if not r.error:
+        for i, e in enumerate(r.log):
+            if e[2] != "thread-died":
+                continue
+            if e[3] == "ActionError" and any(x[0] == e[0] and x[2] == "praise" for x in r.log[:i]):
+                continue
+            if e[3] == "DisposedException" and kind == "eventloop" and any(x[2] == "disposecall" for x in r.log[:i]):
+                continue          # the re-scheduling call of a tick after dispose() of the scheduler (C31)
+            bad.append((f"C35 periodic|{kind}|thread-died|{e[3]}", f"thread {e[0]} died: {e[3:]}"))
+    return bad
+
+
+def rt_periodic_family(chk, tier, rng, hist, nontrivial):
+    quick = tier == "quick"
+    t_start = time.time()
+    t_budget = 22 if quick else 600
+    ok_st, st_facts = kt.self_test(2)
+    if not ok_st:
+        chk.tie_broken("k3_time self-test failed", st_facts)
+    cases = list(RT_FIXED) + [rt_gen_case(rng) for _ in range(10 if quick else 300)]
+    lim = 8 if quick else 250
+    rth = {"base_cases": len(cases), "runs": {}, "ticks": {}, "runs_with_two_or_more_ticks": 0, "via": {},
+           "stopped_by_another_thread": 0, "raised": 0, "window_ticks": 0, "distinct_logs": 0,
+           "schedule_periodic_raised_DisposedException": 0, "base_cases_run": 0}
+    distinct = set()
+    fails = {}
+
+    def judge(case, r, fine, sched):
+        kind = case["kind"]
+        chk.cov["evaluations"] += 1
+        rth["runs"][kind] = rth["runs"].get(kind, 0) + 1
+        ticks = [e for e in r.log if e[2] == "pstart"]
+        rth["ticks"][kind] = rth["ticks"].get(kind, 0) + len(ticks)
+        rth["runs_with_two_or_more_ticks"] += len(ticks) >= 2
+        rth["raised"] += any(e[2] == "praise" for e in r.log)
+        rth["schedule_periodic_raised_DisposedException"] += sum(
+            1 for e in r.log if e[2] == "raise" and str(e[3]) in case["pspec"])
+        h = hashlib.sha1(json.dumps([case, r.log], default=str).encode()).hexdigest()
+        distinct.add(h)
+        if len(ticks) >= 2 and k3.preemptions(r.trace) > 0:
+            nontrivial.add("rt:" + h)
+        for sig, msg in rt_oracle(case, r):
+            if sig.startswith("NOTE "):
+                rth["window_ticks"] += 1
+                continue
+            sz = sum(len(p) for p in case["progs"]) * 100 + len(sched)
+            if sig not in fails or sz < fails[sig][0]:
+                fails[sig] = (sz, {"driver": "rt-periodic", "case": case, "schedule": sched, "fine": fine,
+                                   "what_failed": msg,
+                                   "implementation_log": [list(map(str, e)) for e in r.log],
+                                   "expected_text": "tick k gets f^k(st0), ticks never overlap, first tick >= call + "
+                                   "period, consecutive ticks >= a period apart, no tick once a dispose() of the "
+                                   "returned disposable returned before the previous tick ended or before the tick "
+                                   "could be due, at most one tick after any dispose(), none after a raise"})
+
+    with E.rebound():
+        for ci, b in enumerate(cases):
+            if time.time() - t_start > t_budget:
+                chk.notes.append(f"rt-periodic: time budget reached after {ci} of {len(cases)} base cases")
+                break
+            rth["base_cases_run"] += 1
+            for sp in b["pspec"].values():
+                rth["via"][sp.get("via", "direct")] = rth["via"].get(sp.get("via", "direct"), 0) + 1
+            rth["stopped_by_another_thread"] += any(op[0] == "cancel" for p in b["progs"] for op in p)
+            for kind in b.get("kinds", R.KINDS):
+                case = dict({k: v for k, v in b.items() if k != "kinds"}, kind=kind)
+                box = {}
+
+                def once(chooser, fine):
+                    r = R.run_case(case, chooser, fine=fine)
+                    box["r"] = r
+                    return r.trace, None
+                for sched, _ in k3.explore(lambda ch: once(ch, False), 2 if quick else 3, limit=lim):
+                    judge(case, box["r"], False, sched)
+                for _ in range(3 if quick else 30):
+                    r = R.run_case(case, k3.random_chooser(rng), fine=False)
+                    judge(case, r, False, r.schedule)
+                for sched, _ in k3.explore(lambda ch: once(ch, True), 1 if quick else 2, limit=max(3, lim // 3)):
+                    judge(case, box["r"], True, sched)
+                for _ in range(1 if quick else 10):
+                    r = R.run_case(case, k3.random_chooser(rng), fine=True)
+                    judge(case, r, True, r.schedule)
+    for sig, (sz, rep) in fails.items():
+        chk.violation(sig, rep, size=sz)
+    rth["distinct_logs"] = len(distinct)
+    rth["seconds"] = round(time.time() - t_start, 1)
+    rth["k3_time_self_test"] = "ok" if ok_st else "FAILED"
+    hist["rt_periodic_under_k3"] = rth
+
+
+def run_observable(world, c0, d, p, t_rel, disp, sleeps=None, via="subscribe"):
     """subscribe reactivex.timer(d, p) (interval when d == p) on the real scheduler at clock c0,
     optionally dispose the subscription at c0+disp, advance to c0+t_rel.  Returns the emissions
-    (value, clock), the observation list in the model's alphabet and the equivalent model history."""
+    (value, clock), the observation list in the model's alphabet and the equivalent model history.
+    via: "subscribe" = the scheduler is given to subscribe(scheduler=s) only; "factory" = to the factory
+    (interval(p, scheduler=s) / timer(d, p, scheduler=s)) and subscribe gets none."""
     lib.import_repo()
     import reactivex
     w = vt.World(world, c0)
@@ -436,8 +655,13 @@ def run_observable(world, c0, d, p, t_rel, disp, sleeps=None):
         emitted.append((v, w.us(s.clock)))
         if sleeps and sleeps[v % len(sleeps)]:
             s.sleep(w.rel_(sleeps[v % len(sleeps)]))      # the observer takes virtual time
-    src = reactivex.interval(w.rel_(p)) if d == p else reactivex.timer(w.rel_(d), w.rel_(p))
-    sub = src.subscribe(on_next, scheduler=s)
+    if via == "subscribe":
+        src = reactivex.interval(w.rel_(p)) if d == p else reactivex.timer(w.rel_(d), w.rel_(p))
+        sub = src.subscribe(on_next, scheduler=s)
+    else:
+        src = reactivex.interval(w.rel_(p), scheduler=s) if d == p \
+            else reactivex.timer(w.rel_(d), w.rel_(p), scheduler=s)
+        sub = src.subscribe(on_next)
     obs.append(("clock", w.us(s.clock)))
     if disp is not None:
         s.schedule_absolute(w.abs_(c0 + disp), lambda sc, st: sub.dispose())
@@ -446,6 +670,11 @@ def run_observable(world, c0, d, p, t_rel, disp, sleeps=None):
     if status == "timeout":
         obs.append(("hang",))
         return emitted, obs, []
+    if via != "subscribe":
+        try:                      # should the factory have lost the scheduler, a real timer would be pending
+            sub.dispose()
+        except Exception:
+            pass
     n = len(emitted)
     if d == p:
         # interval = schedule_periodic(p, count -> on_next(count); count + 1, 0)
@@ -492,6 +721,29 @@ def replay(chk, path):
         bad = ntpdrv.oracle(d["case"], r)
         for sig, msg in bad:
             print("FAILS", sig, msg)
+        if bad:
+            print(f"VIOLATION property=C35 replay={path}")
+        return 1 if bad else 0
+    if d.get("driver") == "rt-periodic":
+        with E.rebound():
+            r = R.run_case(d["case"], k3.follow(d["schedule"], lenient=True), fine=d.get("fine", False))
+        print("case", json.dumps(d["case"]))
+        for e in r.log:
+            print("   ", e)
+        bad = [b for b in rt_oracle(d["case"], r) if not b[0].startswith("NOTE ")]
+        for sig, msg in bad:
+            print("FAILS", sig, msg)
+        if bad:
+            print(f"VIOLATION property=C35 replay={path}")
+        return 1 if bad else 0
+    if d.get("driver") == "observable":
+        emitted, obs, h = run_observable(*d["args"])
+        print("emitted (value, clock)", emitted)
+        print("expected", d.get("expected"))
+        bad = [list(x) for x in emitted] != [list(x) for x in d.get("expected", [])]
+        if bad:
+            print("FAILS interval-timer-emissions-differ")
+            print(f"VIOLATION property=C35 replay={path}")
         return 1 if bad else 0
     if "history" not in d:
         print(json.dumps(d, indent=1))
@@ -507,4 +759,6 @@ def replay(chk, path):
         bad.append(("periodic-calls-differ-from-k-times-period", ""))
     for sig, detail in bad:
         print("FAILS", sig, detail)
+    if bad:
+        print(f"VIOLATION property=C35 replay={path}")
     return 1 if bad else 0
